@@ -298,6 +298,16 @@ for depth, pdepth, buffered, tier in ((2, 1, False, "quick"), (2, 2, False, "qui
     reg(nm, tier, mk)
 
 
+# defaults of the constructor: no parameter layout at all (a dummy one is created), parameter depth = payload depth
+for depth, params, buffered, tier in ((2, False, False, "quick"), (2, True, True, "quick"), (3, False, True, "thorough")):
+    nm = f"PacketFIFO(payload_depth={depth},param_depth=default,{'params' if params else 'no param layout'},buffered={buffered})"
+    def mk(nm=nm, depth=depth, params=params, buffered=buffered):
+        bits = max(2, (2*(depth + 2) + 1).bit_length())
+        return StreamHarness(nm, lambda: packet.PacketFIFO(stream.EndpointDescription([("data", bits)], [("p", 2)] if params else []), depth, buffered=buffered),
+                             lambda H: PacketFIFOModel(bits, depth + 3), M=2*(depth + 2) + 2, maxpkt=depth, nparam=2 if params else 1)
+    reg(nm, tier, mk)
+
+
 class ArbiterOracle:
     """slave side: every accepted beat is the beat of exactly one master, accepted there in the same cycle; once a
     packet has started no beat of another master is mixed in until its `last`.  mon = owner of the open packet."""
